@@ -15,7 +15,7 @@ def _cap_types():
     return _CAPS
 
 
-def make_env(facts, cpath, values):
+def make_env(facts, cpath, values, lenient=False):
     """values: {capture name (without leading '*'): abstract value of the captured variable}
     returns (env AdtVal, {name: Cell holding the captured variable}).
     A capture whose name the rule does not know is matched by TYPE with a value the closure no longer captures by name
@@ -49,9 +49,14 @@ def make_env(facts, cpath, values):
     cells = {}
     for i, c in enumerate(caps):
         if i not in assign:
-            raise KeyError("anchor-missing: closure %s captures `%s` (%s) which the rule does not know" % (cpath, names[i], c["ty"]))
-        name = assign[i]
-        v = values[name]
+            if not lenient:
+                raise KeyError("anchor-missing: closure %s captures `%s` (%s) which the rule does not know" % (cpath, names[i], c["ty"]))
+            # lenient: an unknown capture is an opaque value named after the variable (the rule that owns the closure's captures reports it)
+            name = names[i]
+            v = Opaque("captured:" + name, c["ty"])
+        else:
+            name = assign[i]
+            v = values[name]
         cell = v if isinstance(v, Cell) else Cell(v, name)
         cells[name] = cell
         if c["by"].startswith("ByRef"):
@@ -64,8 +69,8 @@ def make_env(facts, cpath, values):
     return AdtVal("closure:" + cpath, None, fields), cells
 
 
-def run_closure(facts, cpath, values, args, **kw):
-    env, cells = make_env(facts, cpath, values)
+def run_closure(facts, cpath, values, args, lenient=False, **kw):
+    env, cells = make_env(facts, cpath, values, lenient=lenient)
     body = facts.fn(cpath)["body"]
     by_ref = body["locals"][1]["ty"].startswith("&")
     a0 = Ref(Cell(env), True) if by_ref else env
